@@ -1,4 +1,5 @@
 import PyRatesModel.Str.Replace
+import PyRatesModel.Str.Labels
 import Driver.Proto
 namespace PyRates.Driver
 open Lean PyRates.Str
@@ -14,6 +15,11 @@ def strCmd (j : Json) : Except String Json := do
     let out := replace A.toList eq.toList term.toList repl.toList
     let sp := if term.isEmpty then eq.toList else spec A.toList term.toList repl.toList 0 true eq.toList
     return Json.mkObj [("out", Json.str (String.ofList out)), ("spec", Json.str (String.ofList sp))]
+  else if op == "labels" then
+    let reqs ← (← (← field j "reqs").getArr?).toList.mapM getStr
+    match PyRates.Labels.labelsOf (reqs.length + 5) [] reqs with
+    | some ls => return Json.mkObj [("labels", Json.arr (ls.map Json.str).toArray)]
+    | none => return Json.mkObj [("error", "fuel")]
   else throw s!"bad str op {op}"
 
 end PyRates.Driver
